@@ -2126,6 +2126,7 @@ func (m *repoManager) merge(parents []dvid.UUID, note string, mt MergeType) (dvi
 	m.newVersionMutex.Lock()
 	defer m.newVersionMutex.Unlock()
 
+	dvid.VerifPoint("datastore.merge", uint64(len(parents)))
 	// Add the child node.  Since it's new and unavailable, no need to lock it.
 	childUUID, childV, err := m.newUUID(nil)
 	if err != nil {
@@ -2356,6 +2357,7 @@ func (m *repoManager) newData(uuid dvid.UUID, t TypeService, name dvid.InstanceN
 	}
 	r.RUnlock()
 
+	dvid.VerifPoint("datastore.newData", uint64(id))
 	dataservice, err := t.NewDataService(uuid, id, name, c)
 	if err != nil {
 		return nil, err
